@@ -1,4 +1,6 @@
 """C12 — Bitset<N> = set of indices 0..64*N (rlib/bitset)."""
+from math import gcd
+
 ID = "C12"
 CRATE = "c12"
 COQ_DIR = "C12"
@@ -11,7 +13,7 @@ AUDIT_IMPORT = ("From Coq Require Import String Ascii NArith List Bool Sorted.\n
                 "Open Scope N_scope.")
 EXPLAIN = "explain"
 AXIOM_ALLOW = []
-SHARD = 800
+SHARD = 650
 THEOREMS = [
     ("c12_mem_nth", "forall (s : bitset) (i : N), mem s i = N.testbit (nth (N.to_nat (i / 64)) s 0) (i mod 64)"),
     ("c12_set", "forall (s : bitset) (x : N), wfb s = true -> (x < cap s -> exists s', set s x = Some s' /\\ wfb s' = true /\\ length s' = length s /\\ forall i, mem s' i = if i =? x then true else mem s i) /\\ (cap s <= x -> set s x = None)"),
@@ -39,21 +41,44 @@ THEOREMS = [
     ("c12_enc_display", "forall ws : bitset, display ws = Some (bits_str ws)"),
     ("c12_enc_members", "forall ws : bitset, idx_list 0 ws = filter (mem ws) (indices ws)"),
 ]
-RULE = ("histories of 1-40 operations on four Bitset<N> registers, N in {1,2,3,10}: new / from_u64 (0, 1, 2^63, all ones, "
-        "alternating, random) / set / remove / flip / test / clear / count / iter_bits (all items + two calls after the end) / "
-        "&,|,^ by reference and assigning / ! / == / clone / Display / Debug; indices concentrated on 0, 1, 62, 63, 64, 65, "
-        "127, 128, 64N-1 and 64N, 64N+63, 2^63 (out of range: panic); non-trivial = at least one mutation touching a word "
-        "boundary bit or a binary operator, followed by an observation of that register")
-TRUSTED = ["executor harness/crates/c12 (drives rlib_bitset::Bitset<N> for N = 1, 2, 3, 10, 17, 20, prints every observable)",
-           "checks/c12.py (history generator, Coq term printer)"]
+RULE = ("histories of 1-40 operations on four Bitset<N> registers; random histories for N in {1,2,3,10,17,20} (bulk) and "
+        "{0,4,8,16,32,33,64,65}, directed histories for every N in {0,1,2,3,4,8,10,16,17,20,32,33,64,65,128,129,157,1024,"
+        "1025}: new / Default / from_u64 (0, 1, 2^63, all ones, alternating, random) / set / remove / flip / test / clear / "
+        "count / iter_bits (all items + two calls after the end) / &,|,^ by reference and assigning / ! / == / clone / Display / "
+        "Debug; indices concentrated on 0, 1, 62, 63, 64, 65, 127, 128, 1023/1024, 4095/4096, 64N-1 and out of range 64N, "
+        "64N+63, 2^63, 2^16+k, 2^32+k, 2^38+k, 64*2^8+k, 64*2^16+k, 2^64-64N+k (panic, register unchanged). Other public routes to "
+        "the same observation are executed as separate ops that must print what the plain op prints: iterx (after k calls "
+        "of next(): size_hint, count, last, nth, fold, sum, min, max, collect, for, for_each, by_ref+take then resume, skip, "
+        "step_by, peekable, position, find, all/any, three interleaved live iterators), iterraw (BitsIter::new on a raw "
+        "array), clonefrom (clone_from); == is executed together with != and with swapped operands, Display/Debug together "
+        "with to_string, {:#?}, width/precision equal to the length, a non-String fmt::Write and a nested format (a "
+        "disagreement prints a token X... that no model predicts). Where replaying a rendering or a dense iteration in the "
+        "word model is too slow (quadratic in N) the counting forms itern/dispn/dbgn are used: the executor checks the items / "
+        "characters against test(i) for every i and prints their number, which the model must predict as count. Directed "
+        "families per capacity: boundaries with all observers and both complement directions, all-words-populated operands "
+        "through every operator form, clear/new/clone/clone_from/from_u64 on populated registers followed by all observers and "
+        "operators, clone_from into destinations with bits in higher words, pairs of sets differing in exactly one bit placed in "
+        "every word (of interest) in turn and equal sets reached by different histories, out-of-range indices; "
+        "non-trivial = at least one mutation touching a word boundary bit or a binary operator, followed by an observation of "
+        "that register")
+TRUSTED = ["executor harness/crates/c12 (drives rlib_bitset::Bitset<N> for N = 0, 1, 2, 3, 4, 8, 10, 16, 17, 20, 32, 33, 64, 65, "
+           "128, 129, 157, 1024, 1025, prints every observable; its internal cross-checks of alternative public routes "
+           "(iterx/itern/dispn/dbgn/eq/disp/dbg) can only turn an observation into a token that fails both checks)",
+           "checks/c12.py (history generator, Coq term printer; iterx/iterraw are printed as OIter, itern/dispn/dbgn as OCount, "
+           "clonefrom as OClone; a plain-integer simulation of the registers is used only to choose between an observer and "
+           "its counting form)"]
 ASSUMPTIONS = ["[u64; N] modelled as a list of N words below 2^64, usize indices as unbounded N (all sampled indices are "
                "below 2^64; idx + 64 in the iterator cannot overflow since idx < 64*N)",
                "an out-of-bounds index panics before any write: the register is unchanged afterwards",
                "loops of the iterator are modelled with binary fuel 2^130; the theorems prove the fuel is never exhausted"]
 
-NS = [1, 2, 3, 10, 17, 20]
+NS = [1, 2, 3, 10, 17, 20]                      # capacities of the bulk of the random histories
+NS_MID = [0, 4, 8, 16, 32, 33, 64, 65]          # further capacities with (fewer, shorter) random histories
+NS_BIG = [128, 129, 157, 1024, 1025]            # directed histories only
+NS_ALL = sorted(NS + NS_MID + NS_BIG)
 ARITY = {"new": 1, "from": 2, "set": 2, "rem": 2, "flip": 2, "test": 2, "clear": 1, "count": 1, "iter": 1,
-         "and": 3, "or": 3, "xor": 3, "anda": 2, "ora": 2, "xora": 2, "not": 2, "eq": 2, "clone": 2, "disp": 1, "dbg": 1}
+         "and": 3, "or": 3, "xor": 3, "anda": 2, "ora": 2, "xora": 2, "not": 2, "eq": 2, "clone": 2, "disp": 1, "dbg": 1,
+         "iterx": 3, "iterraw": 1, "itern": 3, "dispn": 1, "dbgn": 1, "clonefrom": 2}
 M64 = (1 << 64) - 1
 
 
@@ -80,6 +105,14 @@ def op_term(o):
         return "%s %d %s" % ({"set": "OSet", "rem": "ORemove", "flip": "OFlip", "test": "OTest"}[k], a[0], n_(a[1]))
     if k in ("clear", "count", "iter", "disp", "dbg"):
         return "%s %d" % ({"clear": "OClear", "count": "OCount", "iter": "OIter", "disp": "ODisplay", "dbg": "ODebug"}[k], a[0])
+    # executor ops that reach an existing observation by another public route (see the executor's header): the model
+    # and the specification know them only as the plain operation, so any difference is a failed check
+    if k in ("iterx", "iterraw"):
+        return "OIter %d" % a[0]
+    if k in ("itern", "dispn", "dbgn"):
+        return "OCount %d" % a[0]
+    if k == "clonefrom":
+        return "OClone %d %d" % (a[0], a[1])
     if k in ("and", "or", "xor"):
         return "OBinRef %s %d %d %d" % ({"and": "BAnd", "or": "BOr", "xor": "BXor"}[k], a[0], a[1], a[2])
     if k in ("anda", "ora", "xora"):
@@ -94,6 +127,9 @@ def obs_term(tok):
         return "VUnit"
     if tok == "P":
         return "VPanic"
+    if tok[0] == "X":
+        # the executor saw two public routes to the same answer disagree: no model predicts this token
+        return 'VStr "%s"%%string' % "".join(ch for ch in tok if ch.isalnum() or ch in "-_")
     if tok[0] == "b":
         return "VBool %s" % ("true" if tok[1] == "1" else "false")
     if tok[0] == "n":
@@ -101,7 +137,7 @@ def obs_term(tok):
     if tok[0] == "l":
         e, items = tok[1], [int(x) for x in tok[3:].split(",") if x]
         ended = "true" if e == "1" else "false"
-        if len(items) > 12 and all(a < b for a, b in zip(items, items[1:])) and items[-1] < 64 * 16:
+        if len(items) > 12 and all(a < b for a, b in zip(items, items[1:])) :
             # compact form of the same strictly ascending list (Corr.idx_list)
             ws = [0] * (items[-1] // 64 + 1)
             for v in items:
@@ -128,7 +164,7 @@ def coq_term(c, obs, profile):
 
 
 MUT = ("set", "rem", "flip", "and", "or", "xor", "anda", "ora", "xora", "not", "from")
-OBS = ("test", "count", "iter", "eq", "disp", "dbg")
+OBS = ("test", "count", "iter", "eq", "disp", "dbg", "iterx", "iterraw", "itern", "dispn", "dbgn")
 
 
 def nontrivial(c, obs):
@@ -145,6 +181,8 @@ def classify(c, obs):
     kinds = {o[0] for o in c["ops"]}
     tag = "N%d" % c["n"]
     tag += "/bin" if kinds & {"and", "or", "xor", "anda", "ora", "xora", "not"} else "/point"
+    if kinds & {"iterx", "iterraw", "itern", "dispn", "dbgn", "clonefrom"}:
+        tag += "/alt-route"
     if "P" in obs.split():
         tag += "/panic"
     return tag
@@ -164,7 +202,22 @@ def index(rng, n):
         return rng.below(top)
     if rng.chance(1, 2):
         return rng.below(top)
+    if rng.chance(1, 3):
+        return rng.choice(oor_values(n))
     return rng.choice([top, top + 1, top + 63, top + 64, 1 << 63, M64, 64 * 10, 64 * 11 - 1])  # out of range (mostly)
+
+
+def oor_values(n):
+    """indices that expose index arithmetic done in a narrower type: 2^w + k for the usual widths, 64 * 2^w + k (word
+    index truncated), and the top of the usize range"""
+    top = 64 * n
+    out = []
+    for base in (64 << 8, 1 << 16, 64 << 16, 1 << 31, 1 << 32, 1 << 38, 1 << 63, (1 << 64) - top):
+        for k in (0, 63, max(top - 1, 0)):
+            v = base + k
+            if v <= M64:
+                out.append(v)
+    return sorted(set(out))
 
 
 def pattern(rng):
@@ -179,7 +232,99 @@ def pattern(rng):
     return 1 << rng.below(64)
 
 
+def popcount(v):
+    return bin(v).count("1")
+
+
+def sim_step(n, regs, o):
+    """what the registers hold after op o (plain integers).  Used ONLY to choose between an observer that Coq replays
+    item by item and its counting form (cost of the Coq replay); never to decide what is correct."""
+    k, top = o[0], 64 * n
+    mask = (1 << top) - 1
+    if k in ("new", "clear"):
+        regs[o[1]] = 0
+    elif k == "from":
+        if n > 0:
+            regs[o[1]] = o[2]
+    elif k in ("set", "rem", "flip"):
+        if o[2] < top:
+            b = 1 << o[2]
+            regs[o[1]] = (regs[o[1]] | b) if k == "set" else (regs[o[1]] & ~b) if k == "rem" else (regs[o[1]] ^ b)
+    elif k in ("and", "or", "xor"):
+        x, y = regs[o[2]], regs[o[3]]
+        regs[o[1]] = (x & y) if k == "and" else (x | y) if k == "or" else (x ^ y)
+    elif k in ("anda", "ora", "xora"):
+        x, y = regs[o[1]], regs[o[2]]
+        regs[o[1]] = (x & y) if k == "anda" else (x | y) if k == "ora" else (x ^ y)
+    elif k == "not":
+        regs[o[1]] = ~regs[o[2]] & mask
+    elif k in ("clone", "clonefrom"):
+        regs[o[1]] = regs[o[2]]
+
+
+def cost_iter(n, v):
+    """seconds of vm_compute for replaying iter_bits in the word model (measured: about 3.5 us per list step of `get`
+    including the arithmetic around it; two word reads per item, one per skipped word)"""
+    s, w = 0, 0
+    while v:
+        c = popcount(v & M64)
+        s += c * (w + 1)
+        v >>= 64
+        w += 1
+    return (2 * s + n * n / 2) * 3.5e-6
+
+
+def cost_disp(n):
+    return 32 * n * n * 3.0e-6 + 64 * n * 2e-6
+
+
+class Budget:
+    """seconds of Coq replay that the abstract observers ITER / DISP / DBG of one group of directed histories may
+    spend; when it is used up they become the counting forms itern / dispn / dbgn (checked inside the executor)"""
+
+    def __init__(self, secs):
+        self.left = secs
+
+    def take(self, c):
+        if c < 0.004:
+            return True
+        if c <= self.left:
+            self.left -= c
+            return True
+        return False
+
+
+def concretize(n, ops, bud):
+    regs = [0, 0, 0, 0]
+    out = []
+    for o in ops:
+        k = o[0]
+        if k == "ITER":                 # ["ITER", r, k, j]
+            if bud.take(cost_iter(n, regs[o[1]])):
+                out.append(["iterx", o[1], o[2], o[3]])
+            else:
+                out.append(["itern", o[1], o[2], o[3]])
+        elif k == "RAW":
+            if bud.take(cost_iter(n, regs[o[1]])):
+                out.append(["iterraw", o[1]])
+            else:
+                out.append(["itern", o[1], 0, 0])
+        elif k in ("DISP", "DBG"):
+            if bud.take(cost_disp(n)):
+                out.append(["disp" if k == "DISP" else "dbg", o[1]])
+            else:
+                out.append(["dispn" if k == "DISP" else "dbgn", o[1]])
+        else:
+            out.append(o)
+            sim_step(n, regs, o)
+    return out
+
+
 def gen_history(rng, n, maxlen):
+    return concretize(n, gen_history_abs(rng, n, maxlen), Budget(0.25 if n > 20 else 1e9))
+
+
+def gen_history_abs(rng, n, maxlen):
     ln = rng.range(1, maxlen)
     ops = []
     R = 4
@@ -211,7 +356,9 @@ def gen_history(rng, n, maxlen):
                 ops.append([kind, r, rng.below(R)])
         elif k < cut[3]:
             kind = rng.choice(["clone", "clone", "clear", "new"])
-            ops.append([kind, r, rng.below(R)] if kind == "clone" else [kind, r])
+            if kind == "clone" and rng.chance(1, 3):
+                kind = "clonefrom"
+            ops.append([kind, r, rng.below(R)] if kind in ("clone", "clonefrom") else [kind, r])
         else:
             kind = rng.choice(["test", "test", "test", "count", "count", "iter", "iter", "eq", "disp", "dbg"])
             if kind in ("disp", "dbg"):
@@ -223,13 +370,29 @@ def gen_history(rng, n, maxlen):
                 ops.append(["test", r, index(rng, n)])
             elif kind == "eq":
                 ops.append(["eq", r, rng.below(R)])
+            elif kind == "iter":
+                ops.append(alt_iter(rng, r, n))
+            elif n > 20:
+                ops.append(["DISP" if kind == "disp" else "DBG", r] if kind in ("disp", "dbg") else [kind, r])
             else:
                 ops.append([kind, r])
     # always end by observing something of every touched register
-    touched = sorted({o[1] for o in ops if o[0] not in OBS})
-    for r in touched[:2]:
-        ops.append([rng.choice(["iter", "count", "iter"]), r])
+    touched = sorted({o[1] for o in ops if o[0] not in OBS and o[0] not in ("ITER", "RAW", "DISP", "DBG")})
+    for r in touched:
+        ops.append(alt_iter(rng, r, n) if rng.chance(2, 3) else ["count", r])
     return ops
+
+
+def alt_iter(rng, r, n):
+    """iter_bits observed through next() only, through every provided Iterator method, or built by BitsIter::new"""
+    k = rng.below(8)
+    if n > 20:
+        return ["RAW", r] if k == 0 else ["ITER", r, rng.choice([0, 1, 2, 3, 5, 8, 13, 63, 64, 65, 100]), rng.below(4)]
+    if k < 4:
+        return ["iter", r]
+    if k < 7:
+        return ["iterx", r, rng.choice([0, 1, 2, 3, 5, 8, 13, 63, 64, 65, 100, 64 * n]), rng.choice([0, 1, 2, 3, 7, 64])]
+    return ["iterraw", r]
 
 
 def directed(n):
@@ -255,19 +418,241 @@ def directed(n):
     return hs
 
 
+# ----------------------------------------------------------------------------- directed families for every capacity
+def woi(n):
+    """words of interest: all of them for small N, the neighbours of the usual chunk sizes otherwise"""
+    if n <= 20:
+        return list(range(n))
+    if n >= 1024:       # every operation costs 64*N list steps in the specification object: short histories
+        return sorted({0, 1, 15, 16, 63, 64, 65, 255, 256, n // 2, n - 2, n - 1})
+    return sorted({w for w in (0, 1, 2, 7, 8, 15, 16, 17, 31, 32, 33, 63, 64, 65, 127, 128, 129, 255, 256, n // 2,
+                               n - 2, n - 1) if 0 <= w < n})
+
+
+def edges(n):
+    top = 64 * n
+    if n >= 1024:
+        return [0, 63, 64, 1023, 1024, 4095, 4096, 16383, 16384, 65535, top - 64, top - 1]
+    return sorted({x for x in (0, 1, 62, 63, 64, 65, 127, 128, 1023, 1024, 2047, 2048, 4095, 4096, 4159, 4160, 8191,
+                               8192, top - 65, top - 64, top - 2, top - 1) if 0 <= x < top})
+
+
+def wbit(w, v, salt):
+    return 64 * w + (w * 7 + v * 13 + salt) % 64
+
+
+def fill_ops(n, v):
+    """registers 0 and 1 with every word populated, differently; 2 and 3 untouched"""
+    if n <= 33:
+        f = [["set", 0, wbit(w, v, 0)] for w in range(n)] + [["set", 1, 64 * w + 63 - (w * 5 + v) % 64] for w in range(n)]
+        f += [["set", 1, wbit(w, v, 0)] for w in range(0, n, 2)]
+        return f
+    # large N: complement of a one-word pattern (word 0 = !pattern, every other word all ones), then holes
+    f = [["from", 0, 0x5555555555555555 ^ (v * 0x0101010101010101 & M64)], ["not", 0, 0], ["from", 1, 0xF0F0F0F00F0F0F0F], ["not", 1, 1]]
+    f += [["rem", 0, wbit(w, v, 0)] for w in woi(n)]
+    f += [["rem", 1, wbit(w, v, 3)] for w in woi(n)[::2]] + [["rem", 1, wbit(w, v, 0)] for w in woi(n)[1::3]]
+    return f
+
+
+def fam_edges(n, v):
+    """G1/G5: every capacity sees its boundaries, all observers, both complement directions, out-of-range panics"""
+    top = 64 * n
+    e = edges(n) if v == 0 else sorted({wbit(w, v, 1) for w in woi(n)})
+    hs = []
+    h = [["set", 0, x] for x in e]
+    h += [["test", 0, x] for x in e[-2:]] + [["count", 0], ["ITER", 0, len(e) // 2, 1], ["RAW", 0], ["DISP", 0]]
+    h += [["set", 0, top], ["rem", 0, top], ["flip", 0, top], ["test", 0, top], ["count", 0]]
+    h += [["flip", 0, x] for x in e[::2]] + [["count", 0], ["ITER", 0, 1, 0], ["DBG", 0]]
+    hs.append(h)
+    h = [["set", 0, x] for x in e] + [["not", 1, 0], ["count", 1], ["ITER", 1, 3, 2], ["DBG", 1], ["not", 2, 1], ["eq", 2, 0],
+                                      ["eq", 0, 2], ["ITER", 2, 0, 0], ["from", 3, 0], ["not", 3, 3]]
+    h += [["rem", 3, x] for x in e] + [["eq", 3, 1], ["count", 3]]
+    if n:
+        h += [["flip", 3, top - 1], ["eq", 3, 1], ["eq", 1, 3], ["count", 3], ["test", 3, top - 1], ["DISP", 3]]
+    hs.append(h)
+    fill = fill_ops(n, v)
+    for k in ("and", "or", "xor"):
+        hs.append(fill + [[k, 2, 0, 1], ["clonefrom", 3, 0], [k + "a", 3, 1], ["eq", 2, 3], ["ITER", 2, 2, 1], ["count", 3],
+                          [k, 2, 1, 0], ["count", 2], ["DISP", 2], ["clone", 3, 1], [k + "a", 3, 0], ["ITER", 3, 0, 3], ["eq", 2, 3]])
+    h = fill + [["clear", 0], ["count", 0], ["ITER", 0, 0, 0], ["DISP", 0], ["eq", 0, 3], ["eq", 3, 0], ["test", 0, 0]]
+    if n:
+        h += [["test", 0, top - 1]]
+    h += [["from", 0, M64], ["not", 1, 0], ["count", 0], ["count", 1], ["and", 2, 0, 1], ["count", 2], ["or", 2, 0, 1],
+          ["count", 2], ["ITER", 2, 64, 1], ["xor", 3, 0, 1], ["eq", 3, 2], ["DBG", 1], ["clear", 1], ["DBG", 1], ["eq", 1, 3]]
+    hs.append(h)
+    return hs
+
+
+def fam_iterx(n, v):
+    """G3: the iterator consumed through every provided method after k calls of next(), bits at 62/63/64, last word"""
+    top = 64 * n
+    bits = sorted({x for x in (62, 63, 64, 65, top - 64, top - 63, top - 2, top - 1) if 0 <= x < top}
+                  | {wbit(w, v, 2) for w in woi(n)[1:-1][:6]})
+    cnt = len(bits)
+    hs = []
+    h = [["set", 0, x] for x in bits]
+    for k, j in ((0, 0), (1, 1), (max(cnt - 1, 0), 0), (cnt, 1), (cnt + 1, 2), (cnt // 2, cnt), (2, 1)):
+        h.append(["ITER", 0, k, j])
+    h += [["RAW", 0], ["iter", 0] if n <= 157 else ["RAW", 0]]
+    hs.append(h)
+    pat = [0x8000000000000001, M64, 0xC000000000000003, 0x5555555555555555, 0xAAAAAAAAAAAAAAAA, 1 << 63][v % 6]
+    pc = bin(pat).count("1")
+    h = [["from", 0, pat], ["not", 1, 0]]
+    for k, j in ((0, 1), (1, 0), (pc - 1, 0), (pc, 0), (pc // 2, 3)):
+        h.append(["ITER", 0, k, j])
+    for k, j in ((0, 0), (63, 1), (64 * n - pc, 1), (5, 64)):
+        h.append(["ITER", 1, max(k, 0), j])
+    h += [["RAW", 1], ["set", 0, top - 1] if n else ["count", 0], ["ITER", 0, pc, 0], ["xora", 1, 0], ["ITER", 1, 1, 1]]
+    hs.append(h)
+    return hs
+
+
+def fam_clonefrom(n, v):
+    """G4: clone_from into a destination that holds bits in higher (and in lower) words than the source; != via eq"""
+    top = 64 * n
+    if n == 0:
+        return [[["clonefrom", 1, 0], ["eq", 1, 0], ["not", 2, 1], ["clonefrom", 0, 2], ["eq", 0, 2], ["count", 0]]]
+    ws = woi(n)
+    lo = [wbit(0, v, 4), 63][: 2 if n > 1 else 1]
+    hi = sorted({top - 1, top - 64, wbit(ws[len(ws) // 2], v, 4), wbit(ws[-1], v, 4)})
+    hs = []
+    hs.append([["set", 1, x] for x in hi] + [["set", 0, x] for x in lo] +
+              [["clonefrom", 1, 0], ["eq", 1, 0], ["eq", 0, 1], ["count", 1], ["ITER", 1, 1, 0], ["test", 1, top - 1], ["DISP", 1],
+               ["set", 1, top - 1], ["eq", 1, 0], ["clonefrom", 0, 1], ["eq", 0, 1], ["count", 0], ["test", 0, top - 1],
+               ["clear", 1], ["clonefrom", 0, 1], ["count", 0], ["ITER", 0, 0, 0], ["eq", 0, 3]])
+    hs.append([["not", 1, 1], ["set", 0, hi[-1]], ["clonefrom", 1, 0], ["count", 1], ["eq", 1, 0], ["not", 2, 0],
+               ["clonefrom", 2, 2], ["count", 2], ["clonefrom", 3, 2], ["eq", 3, 2], ["anda", 3, 0], ["count", 3],
+               ["clonefrom", 3, 0], ["flip", 3, lo[0]], ["eq", 3, 0], ["ITER", 3, 0, 1], ["DBG", 3]])
+    return hs
+
+
+def fam_neareq(n, v):
+    """G6: == / != on sets that differ in exactly one bit, that bit placed in every word (of interest) in turn; the
+    same set reached by different histories"""
+    h = fill_ops(n, v) + [["clone", 1, 0], ["eq", 0, 1]]
+    xs = [64 * w + (w * 11 + 5 + v * 17) % 64 for w in woi(n)]
+    for x in xs:
+        h += [["flip", 1, x], ["eq", 0, 1], ["eq", 1, 0], ["flip", 1, x], ["eq", 0, 1]]
+    h2 = []
+    for x in xs[-3:]:
+        h2 += [["set", 2, x], ["eq", 2, 3], ["rem", 2, x], ["eq", 2, 3], ["eq", 3, 2]]
+    h2 += [["from", 2, 0], ["eq", 2, 3], ["not", 2, 2], ["eq", 2, 3], ["not", 2, 2], ["eq", 2, 3], ["not", 0, 3], ["xor", 1, 0, 0],
+           ["eq", 1, 3], ["clear", 0], ["eq", 0, 1], ["new", 2], ["eq", 3, 2], ["count", 2]]
+    if xs:
+        h2 += [["flip", 2, xs[-1]], ["eq", 3, 2], ["eq", 2, 3], ["clonefrom", 3, 2], ["eq", 3, 2]]
+    return [h, h2]
+
+
+def fam_struct(n, v):
+    """G7: clear / new / clone / clone_from / from_u64 on registers whose every word is populated, then all observers,
+    then the register as left and right operand of every operator form"""
+    top = 64 * n
+    hs = []
+    for sop in (["clear", 1], ["new", 1], ["clone", 1, 0], ["clonefrom", 1, 0], ["from", 1, 0x8000000000000001 + 2 * v]):
+        h = fill_ops(n, v) + [sop, ["count", 1], ["ITER", 1, 1, 1], ["DISP", 1], ["eq", 1, 3], ["eq", 3, 1], ["test", 1, 0]]
+        if n:
+            h += [["test", 1, top - 1], ["test", 1, wbit(woi(n)[-1], v, 0)]]
+        h += [["and", 2, 1, 0], ["count", 2], ["or", 2, 0, 1], ["count", 2], ["xor", 2, 1, 0], ["count", 2],
+              ["clone", 2, 0], ["anda", 2, 1], ["count", 2], ["clone", 2, 0], ["ora", 2, 1], ["count", 2],
+              ["clone", 2, 0], ["xora", 2, 1], ["count", 2], ["ITER", 2, 0, 2],
+              ["ora", 1, 0], ["count", 1], ["xora", 1, 0], ["count", 1], ["anda", 1, 0], ["count", 1],
+              ["not", 2, 1], ["count", 2], ["eq", 1, 0], ["eq", 1, 3], ["ITER", 1, 0, 0], ["DBG", 1]]
+        hs.append(h)
+    return hs
+
+
+def fam_oor(n, v):
+    """G8: indices beyond the capacity that a narrower index type would fold back into range"""
+    vals = oor_values(n)
+    h = [["set", 0, 5]] if n else []
+    kinds = ["set", "flip", "test", "rem"]
+    for i, x in enumerate(vals):
+        h.append([kinds[(i + v) % 4], 0, x])
+    h += [["count", 0], ["ITER", 0, 0, 0]] + ([["test", 0, 5]] if n else [])
+    h2 = [["not", 0, 0]]
+    for i, x in enumerate(vals):
+        h2.append([kinds[(i + v + 3) % 4], 0, x])
+    h2 += [["count", 0], ["not", 1, 0], ["ITER", 1, 0, 0]]
+    return [h, h2]
+
+
+ZERO = [["count", 0], ["iter", 0], ["iterx", 0, 0, 0], ["iterx", 0, 1, 1], ["iterraw", 0], ["disp", 0], ["dbg", 0], ["dispn", 0],
+        ["itern", 0, 0, 0], ["eq", 0, 1], ["and", 2, 0, 1], ["or", 2, 0, 1], ["xor", 2, 0, 1], ["anda", 0, 1], ["ora", 0, 1],
+        ["xora", 0, 1], ["not", 1, 0], ["eq", 1, 0], ["clear", 0], ["clone", 1, 0], ["clonefrom", 2, 1], ["new", 0], ["new", 1],
+        ["from", 0, 5], ["from", 1, 0], ["set", 0, 0], ["rem", 0, 0], ["flip", 0, 0], ["test", 0, 0], ["set", 0, 63],
+        ["test", 0, 1 << 63], ["flip", 1, M64], ["count", 0], ["iter", 1], ["disp", 1], ["dbg", 2], ["eq", 0, 1], ["count", 3]]
+
+FAMILIES = [fam_edges, fam_iterx, fam_clonefrom, fam_neareq, fam_struct, fam_oor]
+
+
+def budget_for(n, tier):
+    """seconds of Coq replay per capacity and variant for the expensive observers (rendering and dense iteration are
+    quadratic in N in the word model); the rest is observed by the counting forms"""
+    if tier == "quick":
+        return 0.3 if n <= 20 else 0.6 if n <= 33 else 1.0 if n <= 65 else 1.7
+    return 2.0 if n <= 20 else 4.0 if n <= 65 else 8.0
+
+
+def families(n, tier, v):
+    bud = Budget(budget_for(n, tier))
+    hs = []
+    per = [f(n, v) for f in FAMILIES]
+    # round robin over the families so that each gets a share of the budget
+    for k in range(max(len(x) for x in per)):
+        for x in per:
+            if k < len(x):
+                hs.append(x[k])
+    if tier == "quick":
+        # a third of the histories per capacity, a different third for neighbouring capacities: every shape of history
+        # runs on about six capacities, every capacity runs six or seven shapes
+        off = NS_ALL.index(n) % 3
+        hs = [h for k, h in enumerate(hs) if k % 3 == off]
+    out = [concretize(n, h, bud) for h in hs]
+    if n == 0 and v == 0:
+        out.append(ZERO)
+    return [{"n": n, "ops": h} for h in out if h]
+
+
+def interleave(base, extra):
+    """spread `extra` evenly through `base` (the expensive large-capacity cases must not pile up in one batch file)"""
+    if not extra:
+        return base
+    # the extra cases arrive ordered by capacity: a fixed stride permutation mixes cheap and expensive ones
+    m = len(extra)
+    stride = next(d for d in range(max(2, (m * 382) // 1000), 2 * m + 3) if gcd(d, m) == 1)
+    extra = [extra[(i * stride) % m] for i in range(m)]
+    out, step, k = [], max(1, len(base) // len(extra)), 0
+    for i, c in enumerate(base):
+        out.append(c)
+        if (i + 1) % step == 0 and k < len(extra):
+            out.append(extra[k])
+            k += 1
+    return out + extra[k:]
+
+
 def generate(rng, tier):
     cases = []
     for n in NS:
         for h in directed(n):
             cases.append({"n": n, "ops": h})
     total = 2200 if tier == "quick" else 30000
+    rnd = []
     for _ in range(total):
         n = rng.choice([1, 1, 1, 2, 2, 2, 2, 3, 3, 3, 10, 10, 17, 20] if tier == "quick" else [1, 1, 2, 2, 2, 3, 3, 10, 17, 20])
-        maxlen = 40 if n < 10 else (25 if n == 10 else 10)
+        maxlen = 40 if n < 10 else (25 if n == 10 else (10 if tier == "quick" else 20))
         if rng.chance(1, 4):
             maxlen = 8
-        cases.append({"n": n, "ops": gen_history(rng, n, maxlen)})
-    return cases
+        rnd.append({"n": n, "ops": gen_history(rng, n, maxlen)})
+    # every capacity: directed families (variant 0 in the quick tier), random histories for the middle capacities
+    extra = []
+    for v in range(1 if tier == "quick" else 5):
+        for n in NS_ALL:
+            extra += families(n, tier, v)
+    r2 = rng.fork("mid")
+    for _ in range(60 if tier == "quick" else 3000):
+        n = r2.choice(NS_MID + [4, 8, 16, 16])
+        extra.append({"n": n, "ops": gen_history(r2, n, 25 if n <= 16 else 10)})
+    return cases + interleave(rnd, extra)
 
 
 def shrink(c):
@@ -284,8 +669,12 @@ def shrink(c):
                 if o[0] != "from" and (v >= 64 * c["n"]) != (o[2] >= 64 * c["n"]):
                     continue
                 out.append(dict(c, ops=ops[:i] + [[o[0], o[1], v]] + ops[i + 1:]))
+    alt = {"iterx": "iter", "iterraw": "iter", "itern": "count", "dispn": "count", "dbgn": "count", "clonefrom": "clone"}
+    for i, o in enumerate(ops):
+        if o[0] in alt:
+            out.append(dict(c, ops=ops[:i] + [[alt[o[0]]] + o[1:ARITY[alt[o[0]]] + 1]] + ops[i + 1:]))
     if c["n"] > 1:
-        for m in NS:
+        for m in NS_ALL:
             if m < c["n"] and all(o[0] not in ("set", "rem", "flip", "test") or o[2] < 64 * m or o[2] >= 64 * c["n"]
                                   for o in ops):
                 out.append(dict(c, n=m))
@@ -301,11 +690,15 @@ MANIFEST = {
             "then None forever (c12_iter_bits, c12_next), == iff same set (c12_eq), Display/Debug = characteristic string "
             "(c12_display), and every operation history shows the same observations as a naive list-of-booleans set "
             "(c12_history, hence model_check -> spec_check). Tied to the code on every run: generated histories on "
-            "Bitset<1>,<2>,<3>,<10>,<17>,<20> are executed by the real crate and Coq proves model = implementation and "
-            "implementation = naive set on every case.",
+            "Bitset<N> for N in {0,1,2,3,4,8,10,16,17,20,32,33,64,65,128,129,157,1024,1025} are executed by the real crate "
+            "(debug and release) and Coq proves model = implementation and implementation = naive set on every case; the "
+            "executor additionally reaches each observation by the other public routes (every provided Iterator method "
+            "after partial consumption, BitsIter::new, clone_from, !=, to_string and formatter flags) and any disagreement "
+            "fails the case.",
     "level_note": "Trusted: Coq kernel + vm_compute; the Rust executor and the Python case printer (its two compact notations "
                   "for observed strings/lists are proved to denote the rendering/member list: c12_enc_*); arrays are lists, "
                   "usize is unbounded N with 64*N < 2^64 assumed for the iterator; theorems are about the model, the "
-                  "correspondence is sampled (2.3k histories quick, 30k thorough).",
+                  "correspondence is sampled (2.5k histories quick, 35k thorough); for N >= 64 most renderings and dense "
+                  "iterations are tied to the model through their count and an executor-side comparison with test(i).",
     "technique": "Coq proof over Gallina model + vm_compute correspondence batches against the Rust crate",
 }
